@@ -18,6 +18,7 @@ pub const FAULTS: &[&str] = &[
     "escaped-string-for-borrowed-field",
     "invalid-utf8-in-ignored-member",
     "not-an-object",
+    "long-non-ascii-text-frame",
     "truncated-frame-then-eof",
     "eof-mid-burst",
     "read-error",
@@ -89,6 +90,18 @@ fn fault_frame(rng: &mut Rng, kind: &str, client: u32) -> Vec<u8> {
             b
         }
         "not-an-object" => rng.pick(&["null", "42", "\"t.Echo\"", "[]", " "]).as_bytes().to_vec(),
+        "long-non-ascii-text-frame" => {
+            // valid UTF-8, refused by the service's method type, long, with multi-byte characters at every
+            // alignment (whatever the server does with the text of a refused frame must cope with it)
+            let pad = "x".repeat(rng.below(8));
+            let body: String = (0..rng.range(30, 160)).map(|_| *rng.pick(&['é', '日', '😀', 'ß', 'a', '本', '\u{7ff}', '\u{ffff}'])).collect();
+            match rng.below(3) {
+                0 => format!("{{\"method\":\"t.Nope{pad}{body}\"}}"),
+                1 => format!("{{\"method\":\"t.Echo\",\"parameters\":{{\"client\":\"{pad}{body}\",\"seq\":1,\"payload\":\"x\"}}}}"),
+                _ => format!("{pad}{body}"),
+            }
+            .into_bytes()
+        }
         _ => unreachable!("{kind}"),
     };
     // fault frames are NUL-terminated like any other; garbage may contain NULs of its own
@@ -180,6 +193,9 @@ pub fn build(rng: &mut Rng, kind: &'static str, pos: usize, nhealthy: usize, sma
                     cuts
                 };
                 c.raw = Some(raw);
+                if kind == "read-error" {
+                    c.read_err_kind = rng.below(3) as u8;
+                }
                 let n = c.chunks(client).len();
                 let when = rng.below(n + 1);
                 for k in 0..n {
